@@ -33,7 +33,8 @@ class C07(ProgramProperty):
         return open_ids('C01') | open_ids('C02') | open_ids('C07')
 
     def explicit_cases(self, ctx):
-        for t in ["f'{x}'", "f'{x!r}'", "f'{x!s:>10}'", "f'{x:{w}.{p}}'", "f'{x=}'", "f'{x = }'", "f'{x=!s}'", "f'{x=:>5}'", "f'{{x}}'", "f'a{{{x}}}b'", "rf'\\d{x}'", "f'{x}' 'y' f'{z}'",
+        for t in ["f'{x:=10}'", "f'{x:=^5}'", "f'{x!r:=>8}'", "'-' '-' f'{x}'", "f'x={x=}'", "f'{x}' 'ab' 'ab'", "f'{a}{a}' f'{a}'", "'' '' f'{x}'", "f'{x:}'", "f'{x=:}'", "f'{x!s:}'",
+                  "f'{x}'", "f'{x!r}'", "f'{x!s:>10}'", "f'{x:{w}.{p}}'", "f'{x=}'", "f'{x = }'", "f'{x=!s}'", "f'{x=:>5}'", "f'{{x}}'", "f'a{{{x}}}b'", "rf'\\d{x}'", "f'{x}' 'y' f'{z}'",
                   "'a' f'{x}'", "u'a' f'{x}'", "f'{a[1:2]}'", "f'{ {1: 2}[1] }'", "f'{(lambda x: x)(1)}'", "f'{a != b}'", "f'{a!=b!r}'", "f'{(y := 1)}'", "f'{x:{y:}}'", "f'''{x}\n{y}'''",
                   "f'{x:%Y-%m-%d}'", "f'{x:!r}'", "f'{a if b else c}'", "f'{x,}'", "f'{*a,}'", "f'{x}' f'{y!r}' f'{z:3}'", "f\"{'a' 'b'}\"", "f'{f(a=1)}'", "f'{x:\\x41}'", "f'{x:{y=}}'",
                   "f'{x}\\N{DIGIT ONE}{y}'", "f'\\{x}'", "f'{x:é}'", "f'é{é}é'", "f'{\"é\" + x}'", "F'{x}'", "fR'{x}\\n'", "Rf'{x}'", "f'{x!a}'", "f'{ x }'", "f'{x:}'", "f'{x:{{}}}'" if False else "f'{x}}}'"]:
